@@ -809,7 +809,7 @@ namespace
         ci.subject = name;
         {
             JointCase<J> jc(f, ci);
-            jc.allow_known = p.params.size() > 3 && p.params[3] == 999;
+            jc.allow_known = vf::allow_known("F17");
             for (auto& op : p.ops)
                 jc.op(op, op.kind);
             if (!f.failed)
@@ -1080,7 +1080,7 @@ namespace
         f.subject  = "helpers";
         ci.subject = "helpers";
         C20 c(f, ci);
-        c.allow_known = p.params.size() > 3 && p.params[3] == 999;
+        c.allow_known = false;
         for (auto& op : p.ops)
         {
             if (op.kind < H__count)
